@@ -120,23 +120,24 @@ Definition packing_within (r : reqcase) (unit : res) : bool :=
   | Some k => rle_all (rscale (pk_bound k) unit) (pk_alloc k) && (0 <=? pk_bound k) && (pk_bound k <=? pk_pods k)
   | None => true
   end.
-(** correspondence: the scheduler's reading is the model's [booked] (getPodResourceRequest treats every init
-    container, restartable or not, as an ordinary one), the upstream helper's answer is the model of the Kubernetes
-    rule ([k8s_request], sidecars included; equal to [pod_request] without sidecars: k8s_request_no_sidecar), and
-    the binds of the packing world fit the node in the scheduler's own units. *)
+(** correspondence: the scheduler's reading is the model of the Kubernetes rule ([k8s_request]: a restartable init
+    container - a sidecar - is added to the regular containers, and every later init container runs on top of the
+    sidecars started before it; equal to [pod_request], i.e. [booked], without sidecars: k8s_request_no_sidecar) plus
+    the pod slot, and so is the upstream helper's answer; the binds of the packing world fit the node in the
+    scheduler's own units.  Before the repair of C01-sidecar-init-containers-under-read getPodResourceRequest
+    treated every init container, restartable or not, as an ordinary one ([booked] of the spec with the flags
+    dropped). *)
 Definition request_agrees (r : reqcase) : bool :=
-  req (booked (rq_spec r)) (rq_reading r)
+  req (radd (k8s_request (rq_conts r) (rq_inits r) (rq_overhead r)) one_pod_slot) (rq_reading r)
   && req (radd (k8s_request (rq_conts r) (rq_inits r) (rq_overhead r)) one_pod_slot) (rq_reference r)
   && packing_within r (rq_reading r).
 (** monitor: the scheduler reads exactly the Kubernetes request, for every resource, and the pods bound in the
-    packing world, counted with their Kubernetes request, fit the node.  Pods with a restartable init container are
-    the known finding C01-sidecar-init-containers-under-read (flag 7): for them an under-reading or an oversubscribed
-    packing node is reported through the flag, not as a failure. *)
+    packing world, counted with their Kubernetes request, fit the node - for every pod, with or without restartable
+    init containers. *)
 Definition request_holds (r : reqcase) : bool :=
   req (rq_reading r) (rq_reference r) && packing_within r (rq_reference r).
-Definition request_monitor (r : reqcase) : bool := rq_sidecar r || request_holds r.
-Definition request_flags (r : reqcase) : list nat :=
-  if rq_sidecar r && negb (rle_all (rq_reference r) (rq_reading r) && packing_within r (rq_reference r)) then [7%nat] else [].
+Definition request_monitor (r : reqcase) : bool := request_holds r.
+Definition request_flags (r : reqcase) : list nat := [].
 
 Inductive c01case := FCycle (k : ccase) | FFault (k : ccase) | FStatus (c : scase) | FDecision (d : dcase)
                    | FSnapshot (s : snapcase) | FRequest (r : reqcase).
